@@ -94,17 +94,36 @@ theorem isFinishedAt_iff (o : Obs) (now : Nat) (ts : Bool) :
   | none => simp
   | some a => simp [and_assoc]
 
+/-- the state after the admission branch, from the state `s1` returned by
+`checkIngestCapacity` -/
+def admitState (s1 : Sys) (now : Nat) (oid : Oid) (o : Obs) : Sys :=
+  ((({ s1 with telUse := s1.telUse + o.demand, telStatus := true,
+               admitted := s1.admitted ++ [oid] }).updObs oid
+      (fun r => { r with ast := some now })).spawn (.allocIngest oid 0) now).1.addTel
+    ⟨now, oid, .telStarted⟩
+
+@[simp] theorem admitState_admitted (s1 now oid o) : (admitState s1 now oid o).admitted = s1.admitted ++ [oid] := rfl
+@[simp] theorem admitState_telUse (s1 now oid o) : (admitState s1 now oid o).telUse = s1.telUse + o.demand := rfl
+@[simp] theorem admitState_totalArrays (s1 now oid o) : (admitState s1 now oid o).totalArrays = s1.totalArrays := rfl
+@[simp] theorem admitState_provIngest (s1 now oid o) : (admitState s1 now oid o).provIngest = s1.provIngest := rfl
+@[simp] theorem admitState_telEvents (s1 now oid o) :
+    (admitState s1 now oid o).telEvents = s1.telEvents ++ [⟨now, oid, .telStarted⟩] := rfl
+theorem admitState_obs (s1 now oid o) :
+    (admitState s1 now oid o).obs = (s1.updObs oid (fun r => { r with ast := some now })).obs := rfl
+
+theorem obs?_of_updObs {a b : Sys} (o : Oid) (f : Obs → Obs) (hid : ∀ r, (f r).id = r.id)
+    (h : b.obs = (a.updObs o f).obs) : b.obs? o = (a.obs? o).map f := by
+  rw [obs?_congr h, updObs_obs? a o f hid, if_pos rfl]
+
 /-- the three ways a visit can change the state -/
 theorem telescopeVisit_cases (now : Nat) (s : Sys) (oid : Oid) (o : Obs)
     (ho : s.obs? oid = some o) :
     (telescopeVisit now (s, none) oid).1 = s ∨
     (o.isReady now ((s.totalArrays : Int) - s.telUse) = true ∧
-      (∃ s1, s.checkIngestCapacity o = .ok (s1, false) ∧ telescopeVisit now (s, none) oid = (s1, none)) ∨
-      (∃ s1, s.checkIngestCapacity o = .ok (s1, true) ∧ telescopeVisit now (s, none) oid =
-        (((({ s1 with telUse := s1.telUse + o.demand, telStatus := true,
-                      admitted := s1.admitted ++ [oid] }).updObs oid
-              (fun r => { r with ast := some now })).spawn (.allocIngest oid 0) now).1.addTel
-            ⟨now, oid, .telStarted⟩, none))) ∨
+      ∃ s1, s.checkIngestCapacity o = .ok (s1, false) ∧ telescopeVisit now (s, none) oid = (s1, none)) ∨
+    (o.isReady now ((s.totalArrays : Int) - s.telUse) = true ∧
+      ∃ s1, s.checkIngestCapacity o = .ok (s1, true) ∧ telescopeVisit now (s, none) oid =
+        (admitState s1 now oid o, none)) ∨
     (o.isReady now ((s.totalArrays : Int) - s.telUse) = false ∧ o.isFinishedAt now s.telStatus = true ∧
       telescopeVisit now (s, none) oid =
         (({ (s.updObs oid (fun r => { r with status := .finished })) with
@@ -115,19 +134,248 @@ theorem telescopeVisit_cases (now : Nat) (s : Sys) (oid : Oid) (o : Obs)
   simp only [ho]
   split
   · rename_i hr
-    simp only [hr, true_and, Bool.true_eq_false, false_and, or_false]
     split
     · left; rfl
     · rename_i s1 hc
-      right; left; exact ⟨s1, hc, rfl⟩
+      right; left; exact ⟨hr, s1, hc, rfl⟩
     · rename_i s1 hc
-      right; right; exact ⟨s1, hc, rfl⟩
+      right; right; left; exact ⟨hr, s1, hc, rfl⟩
   · rename_i hr
     split
     · rename_i hf
-      right; right
+      right; right; right
       exact ⟨by simpa using hr, hf, rfl⟩
     · left; rfl
+
+theorem admission_guard (now : Nat) (s s' : Sys) (oid : Oid) (o : Obs)
+    (ho : s.obs? oid = some o) (h : telescopeVisit now (s, none) oid = (s', none))
+    (hadm : s'.admitted ≠ s.admitted) :
+    o.est ≤ now ∧ o.status = .waiting ∧
+    (o.demand : Int) ≤ (s.totalArrays : Int) - s.telUse ∧
+    o.ingestDemand ≤ s.cl.available.length ∧
+    s.cl.ingest.length + o.ingestDemand ≤ s.maxIngest ∧
+    s.provIngest + o.ingestDemand ≤ s.maxIngest ∧
+    o.rate * o.duration ≤ s.buf.hot.cur ∧ o.rate * o.duration < s.buf.hot.total ∧
+    s.buf.coldHasCapacityFor (o.rate * o.duration) = true ∧
+    s'.admitted = s.admitted ++ [oid] ∧ s'.telUse = s.telUse + o.demand ∧
+    s'.provIngest = s.provIngest + o.ingestDemand := by
+  rcases telescopeVisit_cases now s oid o ho with hc | ⟨_, s1, hc, hv⟩ | ⟨hr, s1, hc, hv⟩ | ⟨_, _, hv⟩
+  · rw [h] at hc
+    exact absurd (by rw [← hc]) hadm
+  · rw [h] at hv
+    obtain ⟨rfl, _⟩ := Prod.mk.inj hv
+    rcases checkIngestCapacity_ok s o _ _ hc with e | ⟨e, _⟩
+    · exact absurd (by rw [e]) hadm
+    · simp at e
+  · rw [h] at hv
+    obtain ⟨rfl, _⟩ := Prod.mk.inj hv
+    obtain ⟨c1, c2, c3, c4, c5, c6, rfl⟩ := checkIngestCapacity_true s o s1 hc
+    obtain ⟨r1, r2, r3⟩ := (isReady_iff _ _ _).mp hr
+    exact ⟨r1, r3, r2, c1, c2, c3, c4, c5, c6, by simp, by simp, by simp⟩
+  · rw [h] at hv
+    obtain ⟨rfl, _⟩ := Prod.mk.inj hv
+    exact absurd (by simp) hadm
+
+theorem admission_on_time (now : Nat) (s : Sys) (oid : Oid) (o : Obs) (ho : s.obs? oid = some o)
+    (hdue : o.est ≤ now) (hw : o.status = .waiting)
+    (harr : (o.demand : Int) ≤ (s.totalArrays : Int) - s.telUse)
+    (hav : o.ingestDemand ≤ s.cl.available.length) (hlim : o.ingestDemand ≤ s.maxIngest)
+    (hing : s.cl.ingest.length + o.ingestDemand ≤ s.maxIngest)
+    (hprov : s.provIngest + o.ingestDemand ≤ s.maxIngest)
+    (hdur : 1 ≤ o.duration)
+    (hhot : o.rate * o.duration ≤ s.buf.hot.cur) (hcap : o.rate * o.duration < s.buf.hot.total)
+    (hcold : s.buf.coldHasCapacityFor (o.rate * o.duration) = true) :
+    ∃ s', telescopeVisit now (s, none) oid = (s', none) ∧ s'.admitted = s.admitted ++ [oid] ∧
+      (s'.obs? oid).map (·.ast) = some (some now) := by
+  have hr : o.isReady now ((s.totalArrays : Int) - s.telUse) = true :=
+    (isReady_iff _ _ _).mpr ⟨hdue, harr, hw⟩
+  have hc := checkIngestCapacity_admit s o hav hlim hing hprov hdur hhot hcap hcold
+  refine ⟨admitState { s with provIngest := s.provIngest + o.ingestDemand } now oid o, ?_, ?_, ?_⟩
+  · unfold telescopeVisit
+    simp only [ho, hr, if_true, hc]
+    rfl
+  · simp
+  · have key : ∀ b : Sys, b.obs = (s.updObs oid (fun r => { r with ast := some now })).obs →
+        (b.obs? oid).map (·.ast) = some (some now) := by
+      intro b hb
+      rw [obs?_of_updObs oid _ (by intro _; rfl) hb, ho]
+      rfl
+    exact key _ rfl
+
+theorem arrays_step (now : Nat) (s s' : Sys) (oid : Oid) (e : Option Err)
+    (h : telescopeVisit now (s, none) oid = (s', e))
+    (hb : 0 ≤ s.telUse ∧ s.telUse ≤ s.totalArrays)
+    (hfin : ∀ o, s.obs? oid = some o → o.isFinishedAt now s.telStatus = true →
+      (o.demand : Int) ≤ s.telUse) :
+    0 ≤ s'.telUse ∧ s'.telUse ≤ s'.totalArrays := by
+  cases ho : s.obs? oid with
+  | none =>
+    have : telescopeVisit now (s, none) oid = (s, none) := by
+      unfold telescopeVisit; simp [ho]
+    rw [this] at h
+    obtain ⟨rfl, _⟩ := Prod.mk.inj h
+    exact hb
+  | some o =>
+    rcases telescopeVisit_cases now s oid o ho with hc | ⟨_, s1, hc, hv⟩ | ⟨hr, s1, hc, hv⟩ | ⟨_, hf, hv⟩
+    · rw [h] at hc
+      simp only at hc
+      rw [hc]; exact hb
+    · rw [h] at hv
+      obtain ⟨rfl, _⟩ := Prod.mk.inj hv
+      rcases checkIngestCapacity_ok s o _ _ hc with e | ⟨e, _⟩
+      · rw [e]; exact hb
+      · simp at e
+    · rw [h] at hv
+      obtain ⟨rfl, _⟩ := Prod.mk.inj hv
+      obtain ⟨_, _, _, _, _, _, rfl⟩ := checkIngestCapacity_true s o s1 hc
+      obtain ⟨_, r2, _⟩ := (isReady_iff _ _ _).mp hr
+      simp only [admitState_telUse, admitState_totalArrays]
+      omega
+    · rw [h] at hv
+      obtain ⟨rfl, _⟩ := Prod.mk.inj hv
+      have := hfin o ho hf
+      simp only [addTel_telUse, addTel_totalArrays, updObs_totalArrays]
+      omega
+
+theorem finished_after_duration (now : Nat) (s s' : Sys) (oid : Oid) (o : Obs)
+    (ho : s.obs? oid = some o) (h : telescopeVisit now (s, none) oid = (s', none))
+    (hev : (⟨now, oid, .telFinished⟩ : Event) ∈ s'.telEvents ∧
+      (⟨now, oid, .telFinished⟩ : Event) ∉ s.telEvents) :
+    ∃ a, o.ast = some a ∧ a + o.duration ≤ now ∧ o.status ≠ .finished ∧
+      (s'.obs? oid).map (·.status) = some .finished := by
+  rcases telescopeVisit_cases now s oid o ho with hc | ⟨_, s1, hc, hv⟩ | ⟨hr, s1, hc, hv⟩ | ⟨_, hf, hv⟩
+  · rw [h] at hc
+    simp only at hc
+    rw [hc] at hev
+    exact absurd hev.1 hev.2
+  · rw [h] at hv
+    obtain ⟨rfl, _⟩ := Prod.mk.inj hv
+    rcases checkIngestCapacity_ok s o _ _ hc with e | ⟨e, _⟩
+    · rw [e] at hev; exact absurd hev.1 hev.2
+    · simp at e
+  · rw [h] at hv
+    obtain ⟨rfl, _⟩ := Prod.mk.inj hv
+    obtain ⟨_, _, _, _, _, _, rfl⟩ := checkIngestCapacity_true s o s1 hc
+    obtain ⟨h1, h2⟩ := hev
+    simp at h1
+    exact absurd h1 h2
+  · rw [h] at hv
+    obtain ⟨rfl, _⟩ := Prod.mk.inj hv
+    obtain ⟨a, ha, hd, _, hs⟩ := (isFinishedAt_iff _ _ _).mp hf
+    refine ⟨a, ha, hd, hs, ?_⟩
+    have key : ∀ b : Sys, b.obs = (s.updObs oid (fun r => { r with status := .finished })).obs →
+        (b.obs? oid).map (·.status) = some .finished := by
+      intro b hb
+      rw [obs?_of_updObs oid _ (by intro _; rfl) hb, ho]
+      rfl
+    exact key _ rfl
+
+/-! ### provision_ingest_resources -/
+
+theorem moveToIngest_exact (c : Cluster) (obs : Oid) (pairs : List (Mid × Tid)) (rest : List Mid)
+    (hav : c.available = pairs.map (·.1) ++ rest) :
+    (Cluster.moveToIngest c obs pairs).2 = none ∧
+    (Cluster.moveToIngest c obs pairs).1.ingest = c.ingest ++ pairs.map (·.1) ∧
+    (Cluster.moveToIngest c obs pairs).1.available = rest := by
+  induction pairs generalizing c with
+  | nil =>
+    simp only [List.map_nil, List.nil_append] at hav
+    exact ⟨rfl, by simp [Cluster.moveToIngest], hav⟩
+  | cons p ps ih =>
+    obtain ⟨m, t⟩ := p
+    simp only [List.map_cons, List.cons_append] at hav
+    have hm : m ∈ c.available := by rw [hav]; simp
+    unfold Cluster.moveToIngest
+    simp only [hm, if_true]
+    have := ih { c with ingest := c.ingest ++ [m], available := c.available.erase m,
+                        pending := c.pending ++ [⟨t, m, some obs, true⟩] }
+      (by simp [hav])
+    obtain ⟨i1, i2, i3⟩ := this
+    refine ⟨i1, ?_, i3⟩
+    rw [i2]
+    simp
+
+theorem provisionIngest_exact (c c' : Cluster) (demand : Nat) (o : Oid) (pairs : List (Mid × Tid))
+    (_hnd : c.available.Nodup) (h : c.provisionIngest demand o = (c', none, pairs)) :
+    pairs.length = demand ∧ pairs.map (·.1) = c.available.take demand ∧
+    c'.ingest = c.ingest ++ c.available.take demand ∧ c'.available = c.available.drop demand ∧
+    pairs.map (·.2) = (List.range demand).map (Tid.ingest o) := by
+  unfold Cluster.provisionIngest at h
+  by_cases hd : demand > c.available.length
+  · simp [hd] at h
+  · simp only [hd, if_false] at h
+    generalize hp : ((c.available.take demand).zipIdx.map
+      (fun (x : Mid × Nat) => (x.1, Tid.ingest o x.2))) = pairs' at h
+    have hfst : pairs'.map (·.1) = c.available.take demand := by
+      subst hp; rw [List.map_map]; exact List.zipIdx_map_fst 0 _
+    have hsnd : pairs'.map (·.2)
+        = (List.range' 0 (c.available.take demand).length).map (Tid.ingest o) := by
+      subst hp; rw [List.map_map, ← List.zipIdx_map_snd 0, List.map_map]; rfl
+    have hlen : (c.available.take demand).length = demand := by
+      rw [List.length_take]; omega
+    have hmv := moveToIngest_exact { c with ingestStatus := true, ingestDemand := demand } o pairs'
+      (c.available.drop demand) (by rw [hfst]; exact (List.take_append_drop _ _).symm)
+    generalize hr : Cluster.moveToIngest { c with ingestStatus := true, ingestDemand := demand } o pairs'
+      = r at h hmv
+    obtain ⟨c2, e2⟩ := r
+    simp only [Prod.mk.injEq] at h
+    obtain ⟨rfl, rfl, rfl⟩ := h
+    obtain ⟨_, m2, m3⟩ := hmv
+    refine ⟨?_, hfst, ?_, m3, ?_⟩
+    · rw [← hlen, ← hfst, List.length_map]
+    · rw [m2, hfst]
+    · rw [hsnd, hlen, List.range_eq_range']
+
+/-! ### the monitor's row -/
+
+theorem inv_uIngest {c : Cluster} {U : List Tid} (h : Cluster.Inv c U) :
+    c.uIngest = (c.running.filter Tid.isIngest).length := by
+  rw [h.cntIngest, ← h.runOnTasks, List.filter_map, List.length_map]
+  simp only [Cluster.runMachines, List.length_map]
+  congr 2
+  apply List.filter_congr
+  intro x hx
+  have := h.ingRun x hx
+  simp only [Function.comp]
+  rw [← this]
+  cases x.ing <;> rfl
+
+theorem inv_uAvail_quiet {c : Cluster} {U : List Tid} (h : Cluster.Inv c U) (hp : c.pending = []) :
+    c.uAvail = (c.available.length : Int) + c.idleAll.length := by
+  have hav := h.cntAvail
+  have h1 := h.perm.length_eq
+  have h2 := length_eq_of_count_eq h.occ
+  have h3 : (c.runMachines true).length = c.ingest.length := by
+    apply length_eq_of_count_eq
+    intro m
+    have := h.ingm m
+    rw [hp] at this
+    simpa using this
+  have h4 := length_filter_bool_split (·.ing) c.runOn
+  have h5 : c.running.length = c.runOn.length := by rw [← h.runOnTasks, List.length_map]
+  simp only [Cluster.runMachines, List.length_map] at h2 h3
+  simp only [List.length_append] at h1
+  omega
+
+theorem row_true (s : Sys) (U : List Tid) (hinv : Cluster.Inv s.cl U) (n : Nat) :
+    let r := s.mkRow n
+    r.running = s.cl.running.length ∧
+    r.available = (s.cl.machines.length : Int) - s.cl.running.length ∧
+    r.ingest = (s.cl.running.filter Tid.isIngest).length ∧
+    r.finished = (s.cl.finished.filter (·.2)).length ∧
+    r.provisioned = s.cl.idle.length ∧
+    r.hot = s.buf.hot.cur ∧ r.cold = s.buf.cold.cur ∧
+    r.stored = s.buf.hot.stored.length + s.buf.cold.stored.length ∧
+    r.waiting = (s.obs.filter (·.status = .waiting)).length ∧
+    r.obsFinished = (s.obs.filter (·.status = .finished)).length ∧
+    r.queue = s.queue.length :=
+  ⟨hinv.cntRunning, hinv.cntAvail, inv_uIngest hinv, hinv.cntFinished, rfl, rfl, rfl,
+    Nat.add_comm _ _, rfl, rfl, rfl⟩
+
+theorem row_available_true (s : Sys) (U : List Tid) (hinv : Cluster.Inv s.cl U) (n : Nat)
+    (hp : s.cl.pending = []) :
+    (s.mkRow n).available = (s.cl.available.length : Int) + s.cl.idleAll.length :=
+  inv_uAvail_quiet hinv hp
 
 end Sys
 end Topsim
